@@ -108,7 +108,7 @@ func Generate(rng *rand.Rand, i int, thorough bool) *p2prig.Scenario {
 		s.InitialStore = "genesis"
 	}
 	// peers
-	honest := p2prig.NodeSpec{Kind: "honest"}
+	honest := p2prig.NodeSpec{Kind: "honest", InvBatch: 1 + rng.Intn(3)}
 	if rng.Intn(4) == 0 {
 		honest.VersionLag = 1 + rng.Intn(5) // the honest peer finds blocks while the service syncs from it
 	}
